@@ -104,7 +104,7 @@ def gen(cls, idx, rng, tier):
         elif k < .8:
             ops.append((rng.choice(["tell", "len", "address", "flush"]), v))
         elif cls == "lifecycle" and k < .88 or k < .815:
-            ops.append(("close", v))
+            ops.append((rng.choice(["close", "close", "with"]), v))
         elif cls == "lifecycle" and k < .91 or k < .82:
             ops.append(("free",))
         else:
@@ -214,10 +214,12 @@ def run(case, ctx):
                       "free-wrong-pointer", repr(frees), **where)
                 freed = True
             continue
-        if kind == "close":
+        if kind in ("close", "with"):
             if not dead:
                 check(exc is None, "close-failed", repr(exc), **where)
             v.closed = v.closed or exc is None
+            if kind == "with" and not freed:
+                check(v.obj.closed, "with-block-left-view-open", "", **where)
             continue
         if kind == "len":
             check(exc is None and res == len(v), "len-wrong",
@@ -399,6 +401,11 @@ def do(op, v, views, mcm):
         return o.flush()
     if kind == "close":
         return o.close()
+    if kind == "with":
+        with o as inner:
+            if inner is not o:
+                raise AssertionError("__enter__ returned another object")
+        return None
     if kind == "free":
         return views[0].obj.free()
     raise AssertionError(kind)
